@@ -190,6 +190,25 @@ func c02Run(c c02Case, st *vstat.Stats) error {
 			added[tx.GetID()] = spec
 			labels["kind:"+t.Kind] = true
 		}
+		if bi > 0 && c.Bulk > 0 && len(included) > 0 {
+			// a later build over a big backlog again, with txs already included in ancestors
+			// arriving (again) behind more than one stream batch of fresh txs
+			labels["bulk-with-late-repeats"] = true
+			for i := 0; i < 300; i++ {
+				spec := bulkTx(bi*100_000+i, nowBase+30_000)
+				tx := spec.Build()
+				all = append(all, tx)
+				allSpec = append(allSpec, spec)
+				txs = append(txs, tx)
+			}
+			n := 0
+			for i, tx := range all {
+				if _, ok := included[tx.GetID()]; ok && n < 4 {
+					txs = append(txs, all[i])
+					n++
+				}
+			}
+		}
 		if bi == 0 && c.Bulk > 0 {
 			labels["bulk-mempool"] = true
 			for i := 0; i < c.Bulk; i++ {
